@@ -78,7 +78,7 @@ func (f *frame) preservedHeaps(callee *ssa.Function) map[string]bool {
 // reachesAny: can fn reach (through static calls inside its package, closures
 // included) one of the listed writer functions?
 func reachesAny(fn *ssa.Function, writers []string, seen map[*ssa.Function]bool, depth int) bool {
-	if fn == nil || seen[fn] || depth > 12 {
+	if fn == nil || seen[fn] {
 		return false
 	}
 	seen[fn] = true
